@@ -216,6 +216,42 @@ def _acc_cases(tier):
 
 
 
+def run_accumulator_compiled(case):
+    """Conformance of the interpreted-mode state graph: every append history up to `depth` is replayed on the
+    COMPILED accumulator (threshold lowered through the env-guarded hook) and its epilogue sums are compared
+    with the reference sums - i.e. every path of the BFS tree is validated against the compiled code."""
+    from vectorizers import coo_utils
+    n, depth = case["n"], case["depth"]
+    if coo_utils.COO_QUICKSORT_LIMIT != 3:
+        return res([viol("harness:hook-inactive", "VECTORIZERS_VERIF hook did not lower COO_QUICKSORT_LIMIT (is %r)" % coo_utils.COO_QUICKSORT_LIMIT)])
+    events = [(r, c, 1.0) for (r, c) in KEY_ALPHABET]
+    v = {}
+    paths = 0
+    flushed = 0
+    for L in range(1, depth + 1):
+        for hist in itertools.product(range(len(events)), repeat=L):
+            coo = _new_coo(n)
+            ref = {}
+            try:
+                for ei in hist:
+                    r, c, x = events[ei]
+                    coo = coo_utils.coo_append(coo, (np.int32(r), np.int32(c), np.float32(x), np.int64(c + ARRAY_MUL * r)))
+                    ref[(r, c)] = ref.get((r, c), 0.0) + x
+                if int(coo.ind[0]) != L:
+                    flushed += 1
+                got = _epilogue_sums(coo)
+            except Exception as e:
+                got = None
+                sig = "compiled-exception:%s" % type(e).__name__
+                v.setdefault(sig, viol(sig, "history %s on a %d-entry accumulator raised %r" % (list(hist), n, e)))
+                continue
+            paths += 1
+            if got != ref:
+                sig = "compiled-differs-from-reference"
+                v.setdefault(sig, viol(sig, "compiled accumulator (threshold 3, %d entries), history %s: sums %s, expected %s" % (n, [events[i][:2] for i in hist], got, ref)))
+    return res(list(v.values()), nt=("compiled", n) if flushed else None, out="flushed" if flushed else "no-flush", st=1, tr=paths)
+
+
 # ---------------------------------------------------------------------------------------------
 # (a-deep) long histories: enough distinct keys to fill, merge and grow buffers of every size
 # ---------------------------------------------------------------------------------------------
@@ -609,6 +645,11 @@ def subchecks(tier, seed):
                  % (acc[0]["depth"], max(c["n"] for c in acc)),
         total=len(acc), kind="states", shards=len(acc) // 4 + 1, setup=_check_alloc_expression,
         nontrivial_rule="configuration in which at least one flush or growth happened"))
+    hc = [{"n": n, "depth": 6 if tier == "quick" else 8} for n in reachable_sizes()[: (3 if tier == "quick" else 8)]]
+    subs.append(Sub(
+        "a_accumulator_compiled", "H", lambda: iter(hc), run_accumulator_compiled, total=len(hc), kind="compiled-traces", shards=len(hc),
+        describe="every append history of length <= %d over the 4-key alphabet replayed on the compiled accumulator with the hook threshold 3 (VECTORIZERS_VERIF=1), buffer sizes %s; transitions = histories validated" % (hc[0]["depth"], [x["n"] for x in hc]),
+        nontrivial_rule="a flush happened in at least one history"))
     dp = _deep_cases(tier)
     subs.append(Sub(
         "a_accumulator_deep", "I", lambda: iter(dp), run_accumulator_deep,
